@@ -27,6 +27,61 @@ def build_py():
 def flags_of(c):
     return [f for f in c['f'].split(',') if f]
 
+KEY2SETTER = {'d': 'with_conversion_of_digits', 'D': 'with_conversion_of_non_digits', 's': 'with_conversion_of_whitespace',
+              'S': 'with_conversion_of_non_whitespace', 'w': 'with_conversion_of_words', 'W': 'with_conversion_of_non_words',
+              'r': 'with_conversion_of_repetitions', 'i': 'with_case_insensitive_matching', 'g': 'with_capturing_groups',
+              'e': 'with_escaping_of_non_ascii_chars', 'x': 'with_verbose_mode', 'ns': 'without_start_anchor', 'ne': 'without_end_anchor',
+              'c': 'with_syntax_highlighting', 'mr': 'with_minimum_repetitions', 'ms': 'with_minimum_substring_length', 'na': 'without_anchors'}
+STATE_KEYS = [('mr', 'min_rep'), ('ms', 'min_len'), ('d', 'f_digit'), ('D', 'f_non_digit'), ('s', 'f_space'), ('S', 'f_non_space'), ('w', 'f_word'),
+              ('W', 'f_non_word'), ('rep', 'f_rep'), ('ci', 'f_ci'), ('cap', 'f_cap'), ('esc', 'f_esc'), ('sur', 'f_sur'), ('verbose', 'f_verbose'),
+              ('nostart', 'f_no_start'), ('noend', 'f_no_end'), ('colour', 'f_colour')]
+
+def validate_setter_translation(res):
+    """the translator's reading of builder.rs (which generates gen/SrcBuilder.v) against the effect of
+    every setter as the COMPILED code shows it (grexv setters)"""
+    import rs2coq_wrappers, rs2coq
+    try:
+        setters = {s['name']: s for s in rs2coq_wrappers.parse_builder()}
+    except Exception as e:
+        res['broken'].append('translator cannot read builder.rs: %s' % e); return
+    rc, out, err = sh([runner.GREXV, 'setters'])
+    if rc != 0:
+        res['broken'].append('grexv setters failed: ' + err[-300:]); return
+    dump = json.loads([l for l in out.splitlines() if l.startswith('{')][0])
+    def parse_state(txt):
+        d = {}
+        for kv in txt.split(' '):
+            k, v = kv.split('=', 1); d[k] = v
+        return d
+    default = parse_state(dump['default'])
+    n = 0
+    for key, txt in dump.items():
+        if key in ('default',) or key.endswith(':zero') or key == 'from:empty':
+            continue
+        parts = key.split(':')
+        name = KEY2SETTER[parts[0]]
+        if name not in setters:
+            res['broken'].append('setter %s not recognised by the translator' % name); continue
+        sur = (parts[1] == 'true') if len(parts) > 1 else False
+        mr = int(parts[2]) if len(parts) > 2 else 0
+        arg = {'with_escaping_of_non_ascii_chars': 'true' if sur else 'false', 'with_minimum_repetitions': str(mr), 'with_minimum_substring_length': str(mr + 1)}.get(name)
+        exp = dict(default)
+        for fld, val in setters[name]['ups']:
+            k = [a for a, b in STATE_KEYS if b == fld][0]
+            exp[k] = arg if val == 'arg' else val
+        got = parse_state(txt)
+        n += 1
+        if {k: got[k] for k in exp if k != 'tcs'} != {k: exp[k] for k in exp if k != 'tcs'}:
+            res['broken'].append('translator/compiled-code mismatch for setter %s: compiled %s, translated %s' % (name, txt, exp))
+    msgs = {'mr:zero': 'MINIMUM_REPETITIONS_MESSAGE', 'ms:zero': 'MINIMUM_SUBSTRING_LENGTH_MESSAGE'}
+    import re
+    bu = rs2coq.read('src/builder.rs')
+    for k, const in msgs.items():
+        m = re.search(r'const %s: &str =\s*"([^"]*)";' % const, bu)
+        if not m or dump.get(k) != m.group(1):
+            res['broken'].append('panic message of %s: compiled %r, source constant %r' % (k, dump.get(k), m.group(1) if m else None))
+    res['stats']['setters_validated'] = n
+
 # ------------------------------------------------------------------------------------------ C10
 def run_c10(pid, spec, res, st, tier, seed, helpers):
     n = 400 if tier == 'quick' else 6000
@@ -72,6 +127,7 @@ def run_c10(pid, spec, res, st, tier, seed, helpers):
                 fails.append((c, {'kind': 'variant', 'detail': 'variant %r returned %r instead of %r' % (
                     b.get('variant'), ''.join(map(chr, b.get('out', []))) if 'out' in b else b.get('panic'), ''.join(map(chr, b.get('want', []))))}))
                 break
+    validate_setter_translation(res)
     # correspondence on the stages the determinism theorems talk about
     helpers['correspondence'](pid, spec, res, st, allc)
     res['stats'].update({'cases': len(allc), 'processes': nproc, 'variant_builds': variants, 'corpus': len(corpus)})
@@ -192,6 +248,7 @@ def run_c12(pid, spec, res, st, tier, seed, helpers):
         # from_file of the library behaves like from() on the lines: covered by the `file` channel (main.rs reads the file itself)
     finally:
         shutil.rmtree(tmpd, ignore_errors=True)
+    validate_setter_translation(res)
     # str::lines model validation
     helpers['lines_validation'](res, cs, seed)
     res['stats'].update({'cases': len(cs), 'cli_runs': runs, 'corpus': 0})
@@ -284,10 +341,26 @@ def run_c14(pid, spec, res, st, tier, seed, helpers):
         return res
     pr = json.loads(p.stdout)
     pyres = {r['id']: r for r in pr['results']}
+    # the Coq model of the rewrite (Model/PyRewrite.v, extracted) on the library's outputs
+    outs = [impl[c['id']]['out'] for c in cs if impl.get(c['id']) and impl[c['id']].get('out') is not None]
+    rc2, out2, err2 = sh([runner.DRIVER, '--pyrw'], inp=("\n".join(",".join(map(str, o)) for o in outs) + "\n").encode())
+    model_rw = {}
+    if rc2 != 0:
+        res['broken'].append('driver --pyrw failed: ' + err2[-300:])
+    else:
+        for o, l in zip(outs, out2.splitlines()):
+            model_rw[tuple(o)] = [int(x) for x in l.split(',') if x]
+    rw_checked = 0
     fails = []
     known_counts = {}
     for c in cs:
         r = impl.get(c['id']); q = pyres.get(c['id'])
+        if r and q and r.get('out') is not None and 'out' in q and ('e' in flags_of(c) or 'E' in flags_of(c)) and tuple(r['out']) in model_rw:
+            rw_checked += 1
+            if model_rw[tuple(r['out'])] != q['out'] and not any(b.startswith('correspondence: py_rewrite') for b in res['broken']):
+                res['broken'].append('correspondence: py_rewrite model disagrees with the extension module on %r: model %r, module %r' % (
+                    ''.join(map(chr, r['out']))[:120], ''.join(map(chr, model_rw[tuple(r['out'])]))[:120], ''.join(map(chr, q['out']))[:120]))
+        res['stats']['py_rewrite_compared'] = rw_checked
         if r is None or q is None or r.get('panic') is not None:
             continue
         fl = flags_of(c)
@@ -353,6 +426,7 @@ def run_c17(pid, spec, res, st, tier, seed, helpers):
             calls.append([name, (target << 8) | val])
         c['items'] = items; c['calls'] = calls
         lines.append(json.dumps({'id': i, 'items': items, 'calls': calls}))
+    validate_setter_translation(res)
     rc, out, err = sh([runner.GREXV, 'wasm'], inp=("\n".join(lines) + "\n").encode(), timeout=3600)
     if rc != 0:
         res['broken'].append('harness wasm run failed: ' + err[-800:])
